@@ -213,8 +213,8 @@ def run(tier, seed):
     for r in rb:
         viols.extend(r["violations"])
     # (c) pumped families
-    kmax = 10 if tier == "quick" else 13
-    pt = [(name, min(kmax, 9 if tier == "quick" else 11) if name in NESTING else kmax) for name in sorted(FAMILIES)]
+    kmax = 13 if tier == "quick" else 16
+    pt = [(name, min(kmax, 10 if tier == "quick" else 12) if name in NESTING else kmax) for name in sorted(FAMILIES)]
     rp = pool.run_tasks("checks.c02:pump_task", pt)
     for r in rp:
         viols.extend(r["violations"])
